@@ -8,30 +8,42 @@ from . import geo
 DIRS = 'uvw'
 
 
-def spec(kind, degs, mults, dim=None, rational=False, lo=0, hi=1, doms=None, scaled=False):
+def spec(kind, degs, mults, dim=None, rational=False, lo=0, hi=1, doms=None, scaled=False, shifted=False):
     """doms: optional per-direction (lo, hi) knot domains (default: the same [lo, hi] everywhere).
     scaled: the control net is a fixed integer pattern times ONE symbolic factor `sc` > 0 (all sizes of the
     geometry, from micro to huge, with a single variable: absolute tolerances in the code show up as forks on sc)"""
     degs = tuple(degs)
     doms = list(doms) if doms else [(lo, hi)] * len(degs)
     kvs = [fam.pattern(p, m, d[0], d[1]) for p, m, d in zip(degs, mults, doms)]
-    return dict(kind=kind, degs=degs, kvs=kvs, dim=dim or (2 if kind == 'curve' else 3), rational=rational, mults=tuple(mults), doms=doms, scaled=scaled)
+    return dict(kind=kind, degs=degs, kvs=kvs, dim=dim or (2 if kind == 'curve' else 3), rational=rational, mults=tuple(mults), doms=doms, scaled=scaled, shifted=shifted)
 
 
 def spec_name(sp):
     ends = [(k[0], k[-1]) for k in sp['kvs']]
     dom = '' if all(e == (0, 1) for e in ends) else (' dom[%s,%s]' % ends[0] if len(set(ends)) == 1 else ' dom' + 'x'.join('[%s,%s]' % e for e in ends))
-    return '%s p%s m%s %s%s%s' % (sp['kind'], ','.join(map(str, sp['degs'])), ','.join(str(m) for m in sp['mults']), 'rat' if sp['rational'] else 'nonrat', dom, ' scaled' if sp.get('scaled') else '')
+    return '%s p%s m%s %s%s%s' % (sp['kind'], ','.join(map(str, sp['degs'])), ','.join(str(m) for m in sp['mults']), 'rat' if sp['rational'] else 'nonrat', dom, (' scaled' if sp.get('scaled') else '') + (' shifted' if sp.get('shifted') else ''))
 
 
 def sibling_spec(sp):
-    """another shape of the same kind / degrees / rationality with a different knot layout and its own control net:
-    the earlier customer of the same process in the "after a sibling" histories (memo keys, module state)"""
-    mults = []
-    for p, m in zip(sp['degs'], sp['mults']):
-        m = tuple(m) if not isinstance(m, str) else ()
-        mults.append((1,) + tuple(reversed(m)) if len(m) < 2 else tuple(reversed(m))[:-1] + (min(p, m[0] + 1),))
-    out = spec(sp['kind'], sp['degs'], mults, dim=sp['dim'], rational=sp['rational'], doms=sp.get('doms'))
+    """another shape of the same kind / degrees / rationality with its own control net whose knot vectors AGREE with the
+    original's on a long prefix and differ only near the end (last interior knot moved, or one added): the earlier
+    customer of the same process in the "after a sibling" histories - memo keys built from a few local knots, from
+    the parameter or from sizes collide on purpose."""
+    kvs = []
+    for p, kv in zip(sp['degs'], sp['kvs']):
+        kv = [F(k) for k in kv]
+        lo, hi = kv[p], kv[len(kv) - p - 1]
+        interior = [k for k in kv[p + 1:len(kv) - p - 1]]
+        if not interior:
+            new = kv[:p + 1] + [lo + (hi - lo) * F(3, 4)] + kv[p + 1:]
+        else:
+            last = interior[-1]
+            moved = last + (hi - last) / 2
+            new = [moved if k == last and p < i < len(kv) - p - 1 else k for i, k in enumerate(kv)]
+        kvs.append(new)
+    out = dict(sp)
+    out['kvs'] = kvs
+    out['mults'] = tuple('sibling' for _ in sp['degs'])
     return out
 
 
@@ -49,6 +61,13 @@ def build(cx, sp, prefix='', **kw):
     degs, kvs = sp['degs'], sp['kvs']
     sizes = [len(k) - d - 1 for k, d in zip(kvs, degs)]
     Ks = [cx.consts(k) for k in kvs]
+    if sp.get('shifted'):
+        # every knot vector is moved by ONE symbolic offset (any magnitude): knots like time stamps, K + 1.7e9;
+        # tolerances that scale with the knot VALUE instead of the knot spacing show up as forks on the offset
+        sh = [cx.real(prefix + 'shift_' + DIRS[d]) for d in range(len(degs))]
+        Ks = [[k + sh[d] for k in K] for d, K in enumerate(Ks)]
+        kw = dict(kw)
+        kw.setdefault('normalize_kv', False)
     n = 1
     for s in sizes:
         n *= s
